@@ -43,6 +43,7 @@ EXPLANATION = (
   ' (DIV-parsed) no count that the STL reader parses from the file or takes from its caller (number of TTI blocks, maximum number of rows) is used as a divisor unless it has been made positive after it was set, so a count of 0 cannot raise ZeroDivisionError;'
   ' (LOOP-break) no loop over the items of a collection is left by a branch that does nothing but `break` on a test about the item (end-of-input sentinels, flags set in the loop body and searches whose variable is read afterwards excepted): an item that is to be skipped does not end the processing of the items after it;'
   ' (ACC-raw) the text field of a TTI block is read only to extend the text accumulated over extension blocks; everything computed from the text (line count, region height, spans) reads the accumulated field;'
+  + common.SHARED_CLAUSES['text']
 )
 RULE_TEXT = "per table entry / byte value (aggregated per classifier) / struct format / call site"
 UNDECIDED = ["region geometry from VP/JC and row counts", "cumulative-set accumulation behaviour", "the text-field state machine as a whole (span boundaries, space insertion)",
@@ -518,6 +519,7 @@ def check_tcp_fields(ctx):
 
 
 def run(ctx):
+  common.check_shared_helpers(ctx, text=True)
   ix = ctx.ix
   check_tables(ctx)
   check_iso6937(ctx)
